@@ -360,6 +360,77 @@ def dtype_tables(numba_t, numba_src, util_t, util_src, scalar_names) -> str:
             "def targetTable : List (String × String × String × String) := [\n" + ",\n".join(rows) + "\n]\n\nend GV.Generated.Dtypes\n")
 
 
+def _self_attr(e, *chain):
+    """is `e` the attribute chain self.<chain...> ?"""
+    for name in reversed(chain):
+        if not (isinstance(e, ast.Attribute) and e.attr == name):
+            return False
+        e = e.value
+    return isinstance(e, ast.Name) and e.id == "self"
+
+
+def facade_facts(api_t) -> str:
+    """syntactic facts of groupby/api.py: what every facade method hands to the engine"""
+    base = find_class(api_t, "BaseGroupBy")
+    rows = []
+    iter_indexer = "?"
+    for fn in base.body:
+        if not isinstance(fn, ast.FunctionDef):
+            continue
+        if fn.name == "__iter__":
+            for node in ast.walk(fn):
+                if isinstance(node, ast.Subscript) and isinstance(node.value, ast.Attribute) and node.value.attr in ("loc", "iloc") \
+                        and _self_attr(node.value.value, "_obj"):
+                    iter_indexer = node.value.attr
+            continue
+        for node in ast.walk(fn):
+            if isinstance(node, ast.Call) and isinstance(node.func, ast.Attribute) and _self_attr(node.func.value, "_grouper"):
+                if node.args:
+                    a = node.args[0]
+                    src = "values" if _self_attr(a, "_values_to_group") else "obj" if _self_attr(a, "_obj") else "other"
+                else:
+                    src = "none"
+                for kw in node.keywords:
+                    if kw.arg in ("values",):
+                        src = "values" if _self_attr(kw.value, "_values_to_group") else "obj" if _self_attr(kw.value, "_obj") else "other"
+                rows.append((fn.name, node.func.attr, src))
+    roll = find_class(api_t, "BaseGroupByRolling")
+    rolling_src = "?"
+    for fn in roll.body:
+        if isinstance(fn, ast.FunctionDef) and fn.name == "agg":
+            for node in ast.walk(fn):
+                if isinstance(node, ast.Call) and isinstance(node.func, ast.Name) and node.func.id == "method" and node.args:
+                    a = node.args[0]
+                    rolling_src = "values" if _self_attr(a, "_groupby_obj", "_values_to_group") else "obj" if _self_attr(a, "_groupby_obj", "_obj") else "other"
+    dfg = find_class(api_t, "DataFrameGroupBy")
+    excl = rec = sel_one = sel_list = False
+    for fn in dfg.body:
+        if isinstance(fn, ast.FunctionDef) and fn.name == "_from_by_keys":
+            src = ast.unparse(fn)
+            excl = "value_columns = [col for col in obj.columns if col not in columns_used_as_keys]" in src
+            for node in ast.walk(fn):
+                if isinstance(node, ast.If) and ast.unparse(node.test) == "key in obj.columns":
+                    body = "\n".join(ast.unparse(b) for b in node.body)
+                    rec = "columns_used_as_keys.add(key)" in body and "grouping_keys.append(obj[key])" in body
+        if isinstance(fn, ast.FunctionDef) and fn.name == "__getitem__":
+            src = ast.unparse(fn)
+            sel_one = "subset = self._obj[key]" in src and "SeriesGroupBy(subset, grouper=self._grouper)" in src
+            sel_list = "DataFrameGroupBy(self._obj, grouper=self._grouper, value_columns=key)" in src
+        if isinstance(fn, ast.FunctionDef) and fn.name == "_values_to_group":
+            vt = "{col: self._obj[col] for col in self.value_columns}" in ast.unparse(fn)
+    body = ",\n".join(f'  ("{a}", "{b}", "{c}")' for a, b, c in rows)
+    return ("\nnamespace GV.Generated.Facade\n\n/-- (facade method, engine method, what is passed as values) -/\n"
+            f"def delegation : List (String × String × String) := [\n{body}\n]\n\n"
+            f'def iterIndexer : String := "{iter_indexer}"\n'
+            f'def rollingSource : String := "{rolling_src}"\n'
+            f"def valueColumnsExcludeKeys : Bool := {lean_bool(excl)}\n"
+            f"def keyColumnsRecorded : Bool := {lean_bool(rec)}\n"
+            f"def selectionOneIsColumn : Bool := {lean_bool(sel_one)}\n"
+            f"def selectionListIsValueColumns : Bool := {lean_bool(sel_list)}\n"
+            f"def valuesToGroupIsValueColumns : Bool := {lean_bool(vt)}\n"
+            "\nend GV.Generated.Facade\n")
+
+
 def generate() -> dict[str, str]:
     numba_src = (REPO / "groupby_lib/groupby/numba.py").read_text()
     util_src = (REPO / "groupby_lib/util.py").read_text()
@@ -416,6 +487,8 @@ def generate() -> dict[str, str]:
     ]:
         consts.append((nm, "Bool", lean_bool(has_neg_key_guard(fn, kv))))
     consts.append(("chunkedFactorizeThreshold", "Nat", str(module_int_constant(core_t, "THRESHOLD_FOR_CHUNKED_FACTORIZE"))))
+    api_t = ast.parse((REPO / "groupby_lib/groupby/api.py").read_text())
+    files["Facade.lean"] = head + facade_facts(api_t)
     files["Dtypes.lean"] = head + dtype_tables(numba_t, numba_src, util_t, util_src, sf_names)
     body = "\n".join(f"def {n} : {t} := {v}" for n, t, v in consts)
     files["Constants.lean"] = head + "\nnamespace GV.Generated.Constants\n\n" + body + "\n\nend GV.Generated.Constants\n"
